@@ -47,7 +47,8 @@ class Module:
                         ("." * st.level) + (st.module or ""), a.name)
             elif isinstance(st, ast.Import):
                 for a in st.names:
-                    self.imports[a.asname or a.name.split(".")[0]] = (a.name, "")
+                    self.imports[a.asname or a.name.split(".")[0]] = (
+                        a.name if a.asname else a.name.split(".")[0], "")
 
 
 def module(name: str) -> Module:
